@@ -673,6 +673,48 @@ class _RowEncoder(NamedTuple):
     types: tuple[pa.DataType, ...]
     nulls: tuple["pa.Array[Any]", ...]
     """A length-1 all-null array per column, reused for every unset field."""
+    build_types: tuple[pa.DataType | None, ...]
+    """Per column: the dictionary-free twin of its type when the value has to be
+    built through it and cast (see ``_plain_build_type``), else ``None``."""
+
+
+def _plain_build_type(arrow_type: pa.DataType, under_struct: bool = False) -> pa.DataType | None:
+    """Return ``arrow_type`` with dictionary types replaced by their value type, or ``None`` if not needed.
+
+    ``pa.array`` fills the children of a *null* struct slot with placeholder
+    values; for a dictionary child that placeholder is index 0, which is out
+    of bounds when no other slot contributed a value (the dictionary is
+    empty), and full IPC validation then rejects the batch.  Building such a
+    column with plain value types and casting to the declared type encodes
+    the placeholders like any other value, so the indices are always valid.
+    Only types with a dictionary somewhere below a struct need this.
+    """
+    if pa.types.is_dictionary(arrow_type):
+        return arrow_type.value_type if under_struct else None
+    if pa.types.is_struct(arrow_type):
+        children = [_plain_build_type(arrow_type.field(i).type, True) for i in range(arrow_type.num_fields)]
+        if all(child is None for child in children):
+            return None
+        return pa.struct(
+            [
+                arrow_type.field(i).with_type(child if child is not None else arrow_type.field(i).type)
+                for i, child in enumerate(children)
+            ]
+        )
+    if pa.types.is_map(arrow_type):
+        key, item = (
+            _plain_build_type(arrow_type.key_type, under_struct),
+            _plain_build_type(arrow_type.item_type, under_struct),
+        )
+        if key is None and item is None:
+            return None
+        return pa.map_(key or arrow_type.key_type, item or arrow_type.item_type)
+    if pa.types.is_list(arrow_type) or pa.types.is_large_list(arrow_type):
+        value = _plain_build_type(arrow_type.value_type, under_struct)
+        if value is None:
+            return None
+        return pa.list_(value) if pa.types.is_list(arrow_type) else pa.large_list(value)
+    return None
 
 
 def _row_encoder(cls: "type[ArrowSerializableDataclass]") -> _RowEncoder:
@@ -705,6 +747,7 @@ def _row_encoder(cls: "type[ArrowSerializableDataclass]") -> _RowEncoder:
         names=tuple(schema.names),
         types=types,
         nulls=tuple(pa.nulls(1, type=arrow_type) for arrow_type in types),
+        build_types=tuple(_plain_build_type(arrow_type) for arrow_type in types),
     )
     cls._cached_row_encoder = encoder
     return encoder
@@ -1325,10 +1368,14 @@ class ArrowSerializableDataclass:
         arrays: list[pa.Array[Any]] = []
         for index, name in enumerate(encoder.names):
             value = row_dict.get(name)
+            build_type = encoder.build_types[index]
             if value is None:
                 arrays.append(encoder.nulls[index])
-            else:
+            elif build_type is None:
                 arrays.append(pa.array([value], type=encoder.types[index]))
+            else:
+                # A null nested struct with a dictionary (Enum) child: see _plain_build_type.
+                arrays.append(pa.array([value], type=build_type).cast(encoder.types[index]))
         return pa.RecordBatch.from_arrays(arrays, schema=encoder.schema)
 
     def serialize(self, dest: IOBase) -> None:
